@@ -720,6 +720,14 @@ def rule_r7(rep, program: Program, control: bool = True):
                             continue
                         r.inst({"mutating helper": fn.qualname, "param": p, "call": f"{caller.qualname}: {norm(st)[:80]}"})
                         ok = isinstance(st, ast.Assign) and len(st.targets) == 1 and norm(st.targets[0]) == norm(arg) and st.value is c
+                        if not ok and isinstance(st, ast.Assign) and len(st.targets) == 1 and isinstance(st.targets[0], ast.Name) and st.value is c:
+                            # result held in a local that is assigned back to the variable afterwards
+                            # (before anything else reads the state)
+                            loc = st.targets[0].id
+                            body_stmts = [x for x in ast.walk(caller.node) if isinstance(x, ast.stmt)]
+                            later = [x for x in body_stmts if getattr(x, "lineno", 0) > st.lineno]
+                            later.sort(key=lambda x: x.lineno)
+                            ok = bool(later) and isinstance(later[0], ast.Assign) and len(later[0].targets) == 1 and norm(later[0].targets[0]) == norm(arg) and isinstance(later[0].value, ast.Name) and later[0].value.id == loc
                         if not ok:
                             r.violate(PROP, f"{caller.qualname}:{norm(c)[:70]}", f"{fn.qualname} updates its parameter `{p}` in place; the call passes {norm(arg)} but does not assign the result back to it, so the array changes without invalidating the cache", node=c, file=caller.file)
     if control:
